@@ -478,6 +478,9 @@ func (node *RegexNode) processNode(subsequent *RegexNode) {
 }
 
 func (n *RegexNode) reduce() *RegexNode {
+	if verifReduceOff() {
+		return n
+	}
 	// Remove IgnoreCase option from everything except a Backreference
 	if n.T != NtRef {
 		n.Options &= ^IgnoreCase
